@@ -39,7 +39,52 @@ var vfC01Tokens = []string{"a", "b", "ab", "aa", "aaa", "abab", "foo", "Foo", "F
 var vfC01Langs = []string{"Go", "C", "Python", ""}
 var vfC01Names = []string{"a.go", "b.go", "foo.c", "Foo.c", "dir/foo.go", "dir/bar.py", "é.go", "aaa", "ab", "x", "README", "foo bar.txt", "abab.go", "k.c", "K.c"}
 
+var vfC01Words = []string{"needle", "thread", "and", "foo", "bar", "abab", "Foo", "éfoo", "x_1"}
+
+// vfC01Lines: a line-structured text: 1-5 lines of 1-4 words over a small vocabulary, so that the same literal occurs on several
+// lines, literals start at column 0 / end at the line end, on the first and on the last line; the last line often has no newline.
+func vfC01Lines(r *vfRand) []byte {
+	var lines []string
+	nl := 1 + r.Intn(4)
+	for i := 0; i < nl; i++ {
+		var b strings.Builder
+		nw := 1 + r.Intn(4)
+		if i == 0 && nw == 1 && r.Chance(80) {
+			nw = 2 + r.Intn(2)
+		}
+		for j := 0; j < nw; j++ {
+			if j > 0 {
+				b.WriteString(r.Pick([]string{" ", " ", " and ", "-", ""}))
+			}
+			b.WriteString(r.Pick(vfC01Words))
+		}
+		lines = append(lines, b.String())
+	}
+	// often the word that starts some line occurs again alone on another line (before or after): then it is not the rarest literal
+	for k := 0; k < 2; k++ {
+		if r.Chance(60) {
+			src := lines[r.Intn(len(lines))]
+			if k == 0 {
+				src = lines[0]
+			}
+			w := strings.FieldsFunc(src, func(c rune) bool { return c == ' ' || c == '-' })
+			if len(w) > 0 {
+				at := r.Intn(len(lines) + 1)
+				lines = append(lines[:at], append([]string{w[0]}, lines[at:]...)...)
+			}
+		}
+	}
+	out := strings.Join(lines, "\n")
+	if r.Chance(50) {
+		out += "\n"
+	}
+	return []byte(out)
+}
+
 func vfC01Content(r *vfRand) []byte {
+	if r.Chance(30) {
+		return vfC01Lines(r)
+	}
 	var b strings.Builder
 	if r.Chance(8) { // cross the rune-offset sampling boundary (every 100 runes) with multi-byte runes around it
 		n := 90 + r.Intn(25)
@@ -310,7 +355,97 @@ func (e *vfC01Env) pat(r *vfRand) string {
 	}
 }
 
+// sameLineSrc: regexps of the distilled same-line shape (andLineMatchTree): 2-3 literals of >= 3 runes taken from ONE line of a
+// document, joined by .*, in text order or (25 %) reversed; the first literal often starts at column 0, the last often ends at the
+// end of the line. "" if no suitable line exists.
+func (e *vfC01Env) sameLineSrc(r *vfRand) string {
+	for try := 0; try < 8; try++ {
+		if len(e.docs) == 0 {
+			return ""
+		}
+		lines := strings.Split(e.docs[r.Intn(len(e.docs))].content, "\n")
+		if len(lines) < 2 && try < 5 { // prefer documents with several lines
+			continue
+		}
+		line := lines[r.Intn(len(lines))]
+		for k := 0; k < 4 && len(strings.Fields(line)) < 2; k++ { // prefer lines with several words
+			line = lines[r.Intn(len(lines))]
+		}
+		// whole words: the first word of the line (column 0), optionally one in the middle, the last word (ends at the line end)
+		if ws := strings.FieldsFunc(line, func(c rune) bool { return c == ' ' || c == '-' }); len(ws) >= 2 && r.Chance(60) {
+			var big []string
+			for _, w := range ws {
+				if len([]rune(w)) >= 3 {
+					big = append(big, stdregexp.QuoteMeta(w))
+				}
+			}
+			if len(big) >= 2 && strings.HasPrefix(line, ws[0]) && len([]rune(ws[0])) >= 3 {
+				lits := []string{big[0], big[len(big)-1]}
+				if len(big) >= 3 && r.Chance(40) {
+					lits = []string{big[0], big[1+r.Intn(len(big)-2)], big[len(big)-1]}
+				}
+				if r.Chance(15) {
+					lits[0], lits[len(lits)-1] = lits[len(lits)-1], lits[0]
+				}
+				return strings.Join(lits, ".*")
+			}
+		}
+		ln := []rune(line)
+		if len(ln) < 7 {
+			continue
+		}
+		nl := 2
+		if len(ln) >= 11 && r.Chance(40) {
+			nl = 3
+		}
+		// cut points: nl literals of 3..5 runes, non-overlapping, in order
+		var lits []string
+		pos := 0
+		if !r.Chance(55) {
+			pos = r.Intn(len(ln) - 3*nl + 1)
+		}
+		ok := true
+		for k := 0; k < nl; k++ {
+			rest := len(ln) - pos - 3*(nl-k-1)
+			if rest < 3 {
+				ok = false
+				break
+			}
+			n := 3 + r.Intn(3)
+			if n > rest {
+				n = rest
+			}
+			if k == nl-1 && r.Chance(45) { // ends at the end of the line
+				pos = len(ln) - n
+			}
+			lits = append(lits, stdregexp.QuoteMeta(string(ln[pos:pos+n])))
+			pos += n
+			if k < nl-1 {
+				gap := len(ln) - pos - 3*(nl-k-1)
+				if gap > 0 {
+					pos += r.Intn(gap + 1)
+				}
+			}
+		}
+		if !ok {
+			continue
+		}
+		if r.Chance(25) {
+			for i, j := 0, len(lits)-1; i < j; i, j = i+1, j-1 {
+				lits[i], lits[j] = lits[j], lits[i]
+			}
+		}
+		return strings.Join(lits, ".*")
+	}
+	return ""
+}
+
 func (e *vfC01Env) regexSrc(r *vfRand) string {
+	if r.Chance(32) {
+		if s := e.sameLineSrc(r); s != "" {
+			return s
+		}
+	}
 	L := func() string {
 		p := e.pat(r)
 		for strings.Contains(p, "\n") && r.Chance(70) {
@@ -493,6 +628,16 @@ func (e *vfC01Env) atom(r *vfRand) query.Q {
 	d := e.d
 	if r.Chance(14) {
 		return e.symAtom(r)
+	}
+	if r.Chance(9) { // content regexps of the same-line shape lit.*lit(.*lit): andLineMatchTree
+		if src := e.sameLineSrc(r); src != "" {
+			if re, err := syntax.Parse(src, syntax.ClassNL|syntax.PerlX|syntax.UnicodeGroups); err == nil {
+				re = query.OptimizeRegexp(re, syntax.ClassNL|syntax.PerlX|syntax.UnicodeGroups)
+				q := &query.Regexp{Regexp: re, CaseSensitive: r.Chance(60), Content: true}
+				e.rsrc[q] = src
+				return q
+			}
+		}
 	}
 	switch r.Intn(26) {
 	case 0, 1, 2, 3, 4, 5, 6:
@@ -1244,7 +1389,7 @@ func vfC01SearchWatchdog(d *indexData, q query.Q) (*zoekt.SearchResult, error, b
 }
 
 func TestVerifC01(t *testing.T) {
-	r := vfNewRand(vfSeed())
+	r := vfNewRand(vfNewRand(vfSeed()).U64()) // the shared splitmix64 seeding makes seed k+1 the stream of seed k shifted by ONE draw: hash the seed first
 	n := vfN(300)
 	for i := 0; i < n; i++ {
 		c := vfC01GenCorpus(r)
